@@ -258,39 +258,39 @@ PROPS['C01'] = BigLaneSpec(
     'non-trivial = at least one acceptable-project assignment of the instance '
     'is invalid (some quota/closure constraint binds); distinct = distinct '
     'event-log digests among those',
-    {'quick': 30000, 'thorough': 1000000})
+    {'quick': 30000, 'thorough': 300000})
 PROPS['C02'] = LPSpec(
     'C02',
     'seeded S-LP scenarios over every subset/order/argument vector of the '
     'nine criteria, -pc, -stab; every run is a verdict comparison with the '
     'reference feasible set, so every run counts as non-trivial; distinct = '
     'distinct event-log digests',
-    {'quick': 30000, 'thorough': 1000000})
+    {'quick': 30000, 'thorough': 300000})
 PROPS['C03'] = C03Spec(
     'C03',
     'seeded S-LP scenarios with exactly one criterion; non-trivial = the '
     'criterion takes at least two distinct values over the feasible '
     'matchings; distinct = distinct event-log digests among those',
-    {'quick': 30000, 'thorough': 1000000})
+    {'quick': 30000, 'thorough': 300000})
 PROPS['C04'] = C04Spec(
     'C04',
     'seeded S-LP scenarios with 2..4 criteria, gapped positions, shuffled '
     'flags; non-trivial = reversing the order or dropping the freeze of some '
     'criterion changes the lexicographic optimum; distinct = distinct '
     'event-log digests among those',
-    {'quick': 30000, 'thorough': 1000000})
+    {'quick': 30000, 'thorough': 300000})
 PROPS['C05'] = C05Spec(
     'C05',
     'seeded two-sided S-LP scenarios with -stab and criteria in {none, '
     'maxsize, minsize}; non-trivial = the stable set is a proper subset of '
     'the valid set; distinct = distinct event-log digests among those',
-    {'quick': 30000, 'thorough': 1000000})
+    {'quick': 30000, 'thorough': 300000})
 PROPS['C11'] = BigLaneSpec(
     'C11',
     'seeded S-LP scenarios, half without criteria under the uniform '
     'tie-break (every valid matching is optimal); non-trivial = printed '
     'matching non-empty; distinct = distinct event-log digests among those',
-    {'quick': 30000, 'thorough': 1000000})
+    {'quick': 30000, 'thorough': 300000})
 
 
 # ---------------------------------------------------------------------------
@@ -342,7 +342,7 @@ PROPS['C14'] = C14Spec(
     'the thorough tier) and a seeded sample of pairs otherwise, each under a '
     'seeded clock plan; non-trivial = some round did not end in a proven '
     'optimum; distinct = distinct event-log digests among those',
-    {'quick': 1200, 'thorough': 25000},
+    {'quick': 1200, 'thorough': 10000},
     required_probes=('cut-short:tl-incumbent', 'cut-short:tl-no-incumbent',
                      'cut-short:status:Not Solved', 'cut-after-first-round'))
 PROPS['C14'].oracle = oracles.c14
@@ -416,7 +416,7 @@ PROPS['C16'] = C16Spec(
     'spy; (c) a status fault at a seeded round: reported prefix; non-trivial '
     '= flags given out of position order, or a refusal; distinct = distinct '
     'event-log digests among those',
-    {'quick': 25000, 'thorough': 800000},
+    {'quick': 25000, 'thorough': 250000},
     required_probes=('refuse:pos-out-of-range', 'refuse:duplicate-pos',
                      'refuse:stab-without-twopl', 'refuse-with-missing-file',
                      'prefix-under-injected-fault', 'gapped'))
@@ -504,7 +504,7 @@ PROPS['C18'] = C18Spec(
     'solve, LP and brute-force mode, back end drawing a fresh optimal '
     'tie-break on every solve; non-trivial = history with a second solve or '
     'a repeated getter; distinct = distinct event-log digests among those',
-    {'quick': 20000, 'thorough': 600000},
+    {'quick': 20000, 'thorough': 200000},
     required_probes=('different-matchings-across-solves',
                      'repeated-getter-calls', 'bf'))
 PROPS['C18'].oracle = oracles.c18
@@ -577,7 +577,7 @@ PROPS['C06'] = C06Spec(
     'solve(); one run in four is a fault-free -stab run (corollary); '
     'non-trivial = run containing at least one assignment with a blocking '
     'pair; distinct = distinct event-log digests among those',
-    {'quick': 20000, 'thorough': 600000},
+    {'quick': 20000, 'thorough': 200000},
     required_probes=('blocking:3a', 'blocking:3b-in', 'blocking:3b-pref',
                      'blocking:3c', 'full-and-empty-agent',
                      'fault-free-stab'))
@@ -754,7 +754,7 @@ PROPS['C08'] = GenSpec(
     'reachability run (>= 360 lists of one (pmin,pmax) class: every length '
     'must occur); every run is checked in full, so every run is non-trivial; '
     'distinct = distinct event-log digests',
-    {'quick': 20000, 'thorough': 500000}, oracles_gen.c08,
+    {'quick': 20000, 'thorough': 200000}, oracles_gen.c08,
     required_probes=('mp:ha', 'mp:sm', 'mp:hr', 'mp:spa', 't1-extreme',
                      't2-extreme', 'reachability-run', 'one-sided',
                      'more-lecturers-than-projects'))
@@ -763,7 +763,7 @@ PROPS['C12'] = GenSpec(
     'seeded two-sided sm/hr/spa generator runs x two RNG seeds; non-trivial = '
     'some second-side agent is ranked by at least two first-side agents; '
     'distinct = distinct event-log digests among those',
-    {'quick': 30000, 'thorough': 800000}, oracles_gen.c12,
+    {'quick': 30000, 'thorough': 300000}, oracles_gen.c12,
     required_probes=('student-ranks-several-projects-of-a-lecturer',
                      'second-side-agent-nobody-ranks',
                      'more-lecturers-than-projects'))
@@ -776,7 +776,7 @@ PROPS['C13'] = GenSpec(
     'pairs hit out of the 127 with length <= 6 (seeded search with a '
     'coverage measure, not exhaustive enumeration); non-trivial = a list of '
     'length >= 2 made the round trip',
-    {'quick': 20000, 'thorough': 500000}, oracles_gen.c13,
+    {'quick': 20000, 'thorough': 200000}, oracles_gen.c13,
     required_probes=('second-side-list-checked', 'na:2', 'na:3',
                      'writer-decisions-observed',
                      'second-side-file-vs-reader'))
@@ -788,7 +788,7 @@ PROPS['C09'] = GenSpec(
     'two-sided, stand-in back end with seeded tie-break) and in brute-force '
     'mode, in one simulated world; every run is a full comparison with the '
     'reference parse and semantics; distinct = distinct event-log digests',
-    {'quick': 15000, 'thorough': 400000}, oracles_gen.c09,
+    {'quick': 15000, 'thorough': 150000}, oracles_gen.c09,
     required_probes=('mp:ha', 'mp:sm', 'mp:hr', 'mp:spa', 'session:bf',
                      'session:lp', 'lp-stab', 'bf-infeasible',
                      'lp-infeasible'))
@@ -800,6 +800,6 @@ PROPS['C15'] = C15Spec(
     'violated); acceptance with numinst files, or SystemExit(2) with usage '
     'text and zero mkdir/write events in the audit-hook spy; distinct = '
     'distinct event-log digests (every run is non-trivial)',
-    {'quick': 5000, 'thorough': 100000}, oracles_gen.c15,
+    {'quick': 5000, 'thorough': 50000}, oracles_gen.c15,
     required_probes=('accept:ha', 'accept:sm', 'accept:hr', 'accept:spa',
                      'reject:drop-required', 'reject:banned', 'reject:bound'))
